@@ -1,6 +1,7 @@
 package eng
 
 import (
+	"regexp"
 	"bufio"
 	"fmt"
 	"go/ast"
@@ -76,11 +77,21 @@ type FuncSpec struct {
 	Splits    []*Clause // callers fork on these pre-state conditions when using the contract
 	Unfolds   []*Clause // rec-function applications (entry state) whose defining equation is assumed
 	Fuel      int
+	MaxPaths  int // path budget for this function when larger than the default (clause "paths N")
 	Timeout   int // per-solver timeout (seconds) for this function's obligations, when larger than the tier's
 	Preserves map[string][]*Clause // function-typed parameter -> regions its calls are assumed to leave unchanged
 	CalleeReq map[string][]*Clause // function-typed parameter -> conditions proved at each call through it (arguments a0, a1, …)
 	IsLemma   bool
 	LemmaParams []PureParam
+	CallAssumes []*CallAssume // ASSUMPTIONS made at direct calls to named callees (unchecked; reported in the evidence)
+}
+
+// CallAssume: "callsite <callee> assumes [label:] <expr over a0.. and, optionally, r0>". The condition is assumed
+// before the call when it mentions only arguments, after it when it mentions the result.
+type CallAssume struct {
+	Callee string
+	Cl     *Clause
+	Post   bool
 }
 
 type PureParam struct {
@@ -259,6 +270,17 @@ func (ss *SpecSet) LoadSpecFile(path, pkgPath string) error {
 				}
 				cur.Preserves[w1] = append(cur.Preserves[w1], cl)
 			}
+		case "callsite":
+			w1, r1 := splitWord(rest)
+			w2, r2 := splitWord(r1)
+			if cur == nil || w2 != "assumes" {
+				return fmt.Errorf("%s: bad callsite clause", where)
+			}
+			cl, err := mk(r2)
+			if err != nil {
+				return err
+			}
+			cur.CallAssumes = append(cur.CallAssumes, &CallAssume{Callee: w1, Cl: cl, Post: regexp.MustCompile(`\br[0-9]\b`).MatchString(r2)})
 		case "split":
 			if cur == nil {
 				return fmt.Errorf("%s: split outside spec", where)
@@ -281,6 +303,10 @@ func (ss *SpecSet) LoadSpecFile(path, pkgPath string) error {
 		case "timeout":
 			if cur != nil {
 				fmt.Sscanf(rest, "%d", &cur.Timeout)
+			}
+		case "paths":
+			if cur != nil {
+				fmt.Sscanf(rest, "%d", &cur.MaxPaths)
 			}
 		case "fuel":
 			if cur != nil {
